@@ -78,30 +78,30 @@ fn cases(g: &Grid) -> Vec<Case> {
             (Scen::TryAccept, &[PeerMode::Ready, PeerMode::Absent][..]),
         ] {
             for &peer in peers {
-                v.push(Case { scen, fam, len: 0, cap: 4, mode: 0, timeout: None, peer, obtain: 0, use_: 0 });
+                v.push(Case { scen, fam, len: 0, cap: 4, mode: 0, timeout: None, peer, obtain: 0, use_: 0, rx: 0 });
             }
         }
         for &t in &g.timeouts {
             for peer in [PeerMode::Ready, PeerMode::Absent] {
-                v.push(Case { scen: Scen::AcceptTimeout, fam, len: 0, cap: 4, mode: 0, timeout: Some(t), peer, obtain: 0, use_: 0 });
+                v.push(Case { scen: Scen::AcceptTimeout, fam, len: 0, cap: 4, mode: 0, timeout: Some(t), peer, obtain: 0, use_: 0, rx: 0 });
             }
         }
         for peer in [PeerMode::Ready, PeerMode::Late, PeerMode::Absent] {
-            v.push(Case { scen: Scen::Connect, fam, len: 0, cap: 4, mode: 0, timeout: None, peer, obtain: 0, use_: 0 });
-            v.push(Case { scen: Scen::TryConnect, fam, len: 0, cap: 4, mode: 0, timeout: None, peer, obtain: 0, use_: 0 });
+            v.push(Case { scen: Scen::Connect, fam, len: 0, cap: 4, mode: 0, timeout: None, peer, obtain: 0, use_: 0, rx: 0 });
+            v.push(Case { scen: Scen::TryConnect, fam, len: 0, cap: 4, mode: 0, timeout: None, peer, obtain: 0, use_: 0, rx: 0 });
         }
     }
-    v.push(Case { scen: Scen::TryConnect, fam: Fam::Tcp, len: 0, cap: 4, mode: 0, timeout: None, peer: PeerMode::Blackhole, obtain: 0, use_: 0 });
+    v.push(Case { scen: Scen::TryConnect, fam: Fam::Tcp, len: 0, cap: 4, mode: 0, timeout: None, peer: PeerMode::Blackhole, obtain: 0, use_: 0, rx: 0 });
     for &t in &g.timeouts {
         for peer in [PeerMode::Ready, PeerMode::Late, PeerMode::Absent, PeerMode::Blackhole] {
-            v.push(Case { scen: Scen::ConnectTimeout, fam: Fam::Tcp, len: 0, cap: 4, mode: 0, timeout: Some(t), peer, obtain: 0, use_: 0 });
+            v.push(Case { scen: Scen::ConnectTimeout, fam: Fam::Tcp, len: 0, cap: 4, mode: 0, timeout: Some(t), peer, obtain: 0, use_: 0, rx: 0 });
         }
     }
     for peer in [PeerMode::Ready, PeerMode::Late, PeerMode::Absent, PeerMode::Blackhole] {
-        v.push(Case { scen: Scen::InProgTry, fam: Fam::Tcp, len: 0, cap: 4, mode: 0, timeout: None, peer, obtain: 0, use_: 0 });
+        v.push(Case { scen: Scen::InProgTry, fam: Fam::Tcp, len: 0, cap: 4, mode: 0, timeout: None, peer, obtain: 0, use_: 0, rx: 0 });
     }
     for peer in [PeerMode::Ready, PeerMode::Late, PeerMode::Absent] {
-        v.push(Case { scen: Scen::InProgBlocking, fam: Fam::Tcp, len: 0, cap: 4, mode: 0, timeout: None, peer, obtain: 0, use_: 0 });
+        v.push(Case { scen: Scen::InProgBlocking, fam: Fam::Tcp, len: 0, cap: 4, mode: 0, timeout: None, peer, obtain: 0, use_: 0, rx: 0 });
     }
     // --- every way of obtaining a stream x every way of using it, peer connected but silent
     for &fam in &fams {
@@ -111,7 +111,7 @@ fn cases(g: &Grid) -> Vec<Case> {
             }
             for use_ in 0..scen::USES.len() {
                 let cap = 2usize;
-                let base = Case { scen: Scen::Chain, fam, len: 0, cap, mode: 0, timeout: None, peer: PeerMode::Ready, obtain, use_ };
+                let base = Case { scen: Scen::Chain, fam, len: 0, cap, mode: 0, timeout: None, peer: PeerMode::Ready, obtain, use_, rx: 0 };
                 match use_ {
                     0 => {
                         // only TcpStream has a timed read
@@ -122,7 +122,11 @@ fn cases(g: &Grid) -> Vec<Case> {
                         }
                     }
                     1 => v.push(base),
-                    _ => v.push(Case { len: cap + 2, ..base }),
+                    _ => {
+                        for rx in [0usize, 4] {
+                            v.push(Case { len: cap + 2, rx, ..base.clone() });
+                        }
+                    }
                 }
             }
         }
@@ -140,7 +144,10 @@ fn cases(g: &Grid) -> Vec<Case> {
                     wmodes.push(2);
                 }
                 for mode in wmodes {
-                    v.push(Case { scen: Scen::Write, fam, len, cap, mode, timeout: None, peer: PeerMode::Ready, obtain: 0, use_: 0 });
+                    // rx_pending: a greeting of the peer sits unread in the writing socket's receive queue
+                    for rx in [0usize, 4] {
+                        v.push(Case { scen: Scen::Write, fam, len, cap, mode, timeout: None, peer: PeerMode::Ready, obtain: 0, use_: 0, rx });
+                    }
                 }
                 let mut rmodes = vec![0usize, 1, 2];
                 if len >= 2 {
@@ -150,7 +157,7 @@ fn cases(g: &Grid) -> Vec<Case> {
                     rmodes.push(len + 2);
                 }
                 for mode in rmodes {
-                    v.push(Case { scen: Scen::Read, fam, len, cap, mode, timeout: None, peer: PeerMode::Ready, obtain: 0, use_: 0 });
+                    v.push(Case { scen: Scen::Read, fam, len, cap, mode, timeout: None, peer: PeerMode::Ready, obtain: 0, use_: 0, rx: 0 });
                 }
             }
         }
@@ -158,10 +165,10 @@ fn cases(g: &Grid) -> Vec<Case> {
             for &cap in &[1usize, 4] {
                 for &t in &g.timeouts {
                     for mode in [2usize, 3] {
-                        v.push(Case { scen: Scen::ReadTimeout, fam: Fam::Tcp, len, cap, mode, timeout: Some(t), peer: PeerMode::Ready, obtain: 0, use_: 0 });
+                        v.push(Case { scen: Scen::ReadTimeout, fam: Fam::Tcp, len, cap, mode, timeout: Some(t), peer: PeerMode::Ready, obtain: 0, use_: 0, rx: 0 });
                     }
                     if len == 0 && cap == 1 {
-                        v.push(Case { scen: Scen::ReadTimeout, fam: Fam::Tcp, len, cap, mode: 2, timeout: Some(t), peer: PeerMode::Absent, obtain: 0, use_: 0 });
+                        v.push(Case { scen: Scen::ReadTimeout, fam: Fam::Tcp, len, cap, mode: 2, timeout: Some(t), peer: PeerMode::Absent, obtain: 0, use_: 0, rx: 0 });
                     }
                 }
             }
@@ -308,7 +315,10 @@ fn model_phase(args: &Args) -> Report {
          says it must return — timed and try variants, or a peer that still acts —, class blocked-awaiting-peer(ok) for an unlimited wait on a silent peer). Chain scenarios: a stream obtained \
          through each of accept/try_accept/accept_with_timeout/connect/try_connect/connect_with_timeout/connect_blocking (unix and tcp) is used through read_with_timeout (every time-out; tcp), \
          plain read and an over-full write_all while the peer is connected but silent; after every bind/accept/connect variant the descriptor's mode is asserted (returns-blocking-descriptor; \
-         for UnixStream, which has no timed or try operation, a blocking descriptor is only recorded as an outcome class).",
+         for UnixStream, which has no timed or try operation, a blocking descriptor is only recorded as an outcome class). \
+         ppoll is answered from the REQUESTED events and the socket state in both directions; every write scenario runs with rx_pending in {{0, 4}} unread inbound bytes on the writing \
+         socket (a wait that also asks for POLLIN then returns at once while the send FIFO is still full and the retry answers EAGAIN again); after a would-block answer the events of the \
+         following ppoll must be the direction the operation needs (POLLOUT for write/connect, POLLIN for read/accept) and nothing of the other direction (waits-for-wrong-events).",
         g.caps, g.max_len, g.timeouts, budget
     );
     r.bound("deviation_budget", budget);
@@ -316,6 +326,7 @@ fn model_phase(args: &Args) -> Report {
     r.bound("capacities", json!(g.caps));
     r.bound("timeouts_ns", json!(g.timeouts));
     r.bound("cases", n_cases);
+    r.bound("rx_pending", json!([0, 4]));
     r.bound("call_horizon", model::HORIZON);
     r
 }
